@@ -50,6 +50,19 @@ pub fn corpus(tier: &str, rng: &mut Rng) -> Vec<Prog> {
     v.extend(gen::place_expr_everywhere("preinc", "++x"));
     v.extend(gen::place_stmt_everywhere("stmt-try", "try this.g0(x ** 2) returns (uint r) { x = r ** 2; } catch Error(string memory why) { y = --x; } catch { x = y ** 3; }"));
     v.extend(gen::place_stmt_everywhere("stmt-for", "for (uint i = x ** 2; i < y ** 2; i = i ** 2) { ++x; }"));
+    // deep nesting (within the depth the properties name: 64): a searched node far below the root must still be found
+    for depth in [20usize, 45, 60] {
+        let parens = format!("x = {}x ** y{};", "(".repeat(depth), ")".repeat(depth));
+        v.push(Prog { src: gen::file_with_stmt(&parens), tag: format!("deep-parentheses-{}", depth) });
+        let blocks = format!("{}x = x ** y;{}", "{ ".repeat(depth), " }".repeat(depth));
+        v.push(Prog { src: gen::file_with_stmt(&blocks), tag: format!("deep-blocks-{}", depth) });
+        let mut chain = String::from("if (x == 0) { y = 1; }");
+        for k in 1..depth {
+            chain.push_str(&format!(" else if (x == {}) {{ y = {}; }}", k, k));
+        }
+        chain.push_str(" else { y = x ** y; }");
+        v.push(Prog { src: gen::file_with_stmt(&chain), tag: format!("deep-else-if-{}", depth) });
+    }
     let n = if tier == "thorough" { 4000 } else { 300 };
     v.extend(gen::place_expr_two_level("rich2", rich, rng, n));
     v.extend(gen::place_expr_two_level("pow2", small, rng, n));
